@@ -265,7 +265,7 @@ pub fn run(ctx: &Ctx, st: &mut Stats) {
         }
     });
     // results aimed just below / just above a whole number: this is where "truncates toward zero" is decided
-    let na = ctx.tier.pick(300, 1_500_000, 30_000_000);
+    let na = ctx.tier.pick(300, 1_500_000, ctx.big(30_000_000, 150_000_000));
     ctx.par(st, "aimed: real result within 2^-50..1e-7 relative of a whole number", false, 0, na, |st, _, rng| {
         let k = *rng.pick(K::ALL);
         let is_div = matches!(k, K::YmDiv | K::DtDiv | K::TmDiv);
@@ -297,7 +297,7 @@ pub fn run(ctx: &Ctx, st: &mut Stats) {
         st.eval_h(c.hash(k as u64 + 31), &c, both);
     });
     // whole-number multipliers / divisors of every magnitude (integer fast paths, casts)
-    let nw = ctx.tier.pick(300, 1_000_000, 20_000_000);
+    let nw = ctx.tier.pick(300, 1_000_000, ctx.big(20_000_000, 100_000_000));
     ctx.par(st, "whole-number operands of every magnitude", false, 0, nw, |st, _, rng| {
         let k = *rng.pick(K::ALL);
         let bits = rng.below(63) as u32;
@@ -322,7 +322,7 @@ pub fn run(ctx: &Ctx, st: &mut Stats) {
         let c = C::af(k, x, w);
         st.eval_h(c.hash(k as u64 + 57), &c, both);
     });
-    let n = ctx.tier.pick(1_000, 3_000_000, 60_000_000);
+    let n = ctx.tier.pick(1_000, 3_000_000, ctx.big(60_000_000, 250_000_000));
     ctx.par(st, "random/(interval, float)", false, 0, n, |st, _, rng| {
         let k = *rng.pick(K::ALL);
         let x = match k {
